@@ -174,6 +174,30 @@ def _worker(args):
         return cid, ("ERR", type(e).__name__ + ":" + str(e)[:80])
 
 
+def _worker_session(args):
+    """several texts parsed one after the other in ONE process: whatever the parser remembers between calls must not leak"""
+    sid, items = args
+    return sid, [_worker((cid, mode, text))[1] for (cid, mode, text) in items]
+
+
+def lookalikes(rng, text):
+    """texts that differ from a well-formed one only by blanks / tabs / comments at or inside token boundaries"""
+    out = []
+    idpos = [i for i in range(1, len(text)) if (text[i].isalnum() or text[i] in "_-") and (text[i - 1].isalnum() or text[i - 1] in "_-")]
+    for _ in range(2):
+        if idpos:
+            i = rng.choice(idpos)
+            out.append(text[:i] + rng.choice([" ", "\t", "  ", "/*c*/", " \t"]) + text[i:])        # splits an identifier
+    blanks = [i for i, ch in enumerate(text) if ch in " \t"]
+    if blanks:
+        i = rng.choice(blanks)
+        out.append(text[:i] + text[i + 1:])                                                     # drops a blank
+        out.append(text[:i] + ("\t" if text[i] == " " else " ") + text[i + 1:])                  # blank <-> tab
+    j = rng.randrange(len(text) + 1) if text else 0
+    out.append(text[:j] + " " + text[j:])                                                       # adds a blank anywhere
+    return out
+
+
 # ------------------------------------------------------------------ model side
 def parse_prefix(toks, names):
     t = toks.pop(0)
@@ -223,6 +247,26 @@ def run(tier, seed, broken_proof=False):
                 ("b", "signature\n a\nconditionals\nk{\n(a|a),(b|a)}"), ("b", "signature\n a\nconditionals\nk{(z|a)\n,(b|a)}")]
     for j, (m, t) in enumerate(directed):
         jobs.append(("d%d" % j, m, t, "directed"))
+    # sessions: a well-formed text, its look-alikes (in random order) and the text again, parsed in one process
+    sessions = []
+    for i in range(count // 10):
+        n = rng.randrange(2, 6)
+        names = rng.sample([x for x in NAMES if len(x) >= 2] or NAMES, min(n, len([x for x in NAMES if len(x) >= 2]) or n))
+        if rng.random() < 0.7:
+            mode, text = "f", show(rng, gen_form(rng, len(names), rng.randrange(1, 4)), names, 0, rng.random() < 0.5)
+        else:
+            mode = "q"
+            text = "(" + show(rng, gen_form(rng, len(names), rng.randrange(0, 3)), names, 0, False) + "|" + show(rng, gen_form(rng, len(names), rng.randrange(0, 3)), names, 0, False) + ")"
+        alts = lookalikes(rng, text)
+        rng.shuffle(alts)
+        cut = rng.randrange(0, len(alts) + 1)
+        seq = alts[:cut] + [text] + alts[cut:] + [text]
+        items = []
+        for k, t in enumerate(seq):
+            cid = "s%d_%d" % (i, k)
+            jobs.append((cid, mode, t, "session"))
+            items.append((cid, mode, t))
+        sessions.append(("s%d" % i, items))
     lines = []
     for cid, mode, text, kind in jobs:
         lines.append("P %s %s" % (cid, mode))
@@ -235,8 +279,12 @@ def run(tier, seed, broken_proof=False):
         parts = line.split("\t")
         mres[parts[0]] = parts[1:]
     ires = {}
-    for cid, res in ops.pool().imap_unordered(_worker, [(j[0], j[1], j[2]) for j in jobs], chunksize=8):
+    for cid, res in ops.pool().imap_unordered(_worker, [(j[0], j[1], j[2]) for j in jobs if j[3] != "session"], chunksize=8):
         ires[cid] = res
+    for sid, ress in ops.pool().imap_unordered(_worker_session, sessions, chunksize=2):
+        items = next(it for (s_, it) in sessions if s_ == sid)
+        for (cid, _, _), res in zip(items, ress):
+            ires[cid] = res
     violations = []
     strata = Counter()
     nontriv = set()
@@ -252,7 +300,7 @@ def run(tier, seed, broken_proof=False):
             nontriv.add(text)
         if macc != iacc:
             violations.append({"kind": "accept-reject", "mode": mode, "text": text, "input_kind": kind, "expected": "accept" if macc else "reject",
-                               "actual": im, "found_by": "directed" if kind == "directed" else "generated",
+                               "actual": im, "found_by": "directed" if kind == "directed" else "generated", "session": [t for (c_, m_, t) in next((it for (s_, it) in sessions if cid.startswith(s_ + "_")), [])] if kind == "session" else None,
                                "theorem_or_observable": "text that is not entirely well formed must be rejected / well-formed text accepted"})
             continue
         if not macc:
@@ -283,7 +331,7 @@ def run(tier, seed, broken_proof=False):
     return {"evaluations": len(jobs), "distinct_nontrivial": len(nontriv),
             "rule": "grammar-directed generator: formulas (nesting <= %d, minimal + redundant parentheses, blanks, tabs, block comments), belief-base files (signature line, 0-4 conditionals, "
                     "\\n / \\r\\n / \\r line ends, blank lines, line comments, second block), query lists; 45%% of the texts are mutated 1-2 times (deletion, duplication, insertion of tokens and illegal "
-                    "characters, trailing tokens, dropped separators); %d directed cases; non-trivial = distinct text longer than 3 characters" % (6 if tier == "thorough" else 4, len(directed)),
+                    "characters, trailing tokens, dropped separators); %d directed cases; sessions (a well-formed text, 3-5 look-alikes differing only by blanks/tabs/comments inside or between tokens, and the text again, parsed one after the other in one process); non-trivial = distinct text longer than 3 characters" % (6 if tier == "thorough" else 4, len(directed)),
             "samples": samples, "strata": dict(strata), "traces_validated_against_impl": len(jobs), "violations": violations[:25]}
 
 
